@@ -25,6 +25,18 @@ or re-raised to the server) is swept over {True (default), False} (case field ca
 catchall=False and debug off the error pages are held to exactly the same clauses; a request whose exception is
 re-raised to the server produces no page and nothing is claimed for it.  debug=True is a developer mode about
 which the statement says nothing: it is not generated.
+Configuration HISTORIES (case field history, absent = constructed with debug off): "debug off" is a statement about the
+application's configuration at the time of the request, so applications that were CONSTRUCTED with {'debug': True} and
+then set to debug False through the documented app.setup(config) are generated too, and their pages are held to exactly
+the same clauses (and compared with the same harmless pages of applications constructed with debug off):
+  on>off          Ombott({... debug True}); app.setup({... debug False}); routes; request
+  on>routes>off   Ombott({... debug True}); routes; app.setup({... debug False}); request
+  on>served>off   Ombott({... debug True}); routes; a request (other payload, marker M2) served in debug mode - nothing is
+                  claimed for that page; app.setup({... debug False}); request (the earlier payload must not show up
+                  unescaped either)
+  off>on>off      Ombott({... debug False}); app.setup({... debug True}); app.setup({... debug False}); routes; request
+(setup replaces the whole configuration, so it is given the full dictionary: sizes, catchall, debug.)  The reverse
+(a request served while debug is on) is outside the statement and never judged.
 Handlers whose exception text repeats request data (500int: int() of the path -> ValueError quoting the path;
 500echo / 500echoiter: an exception, raised by the handler / by its generator, whose message quotes path, raw
 and unquoted query string, Host, X-Forwarded-Host and X-Forwarded-Proto): with debug off whatever the page shows
@@ -61,6 +73,9 @@ FORMATS = ['{e.status}', '{0}', '{url}', '{e.body}', '{traceback}', '{exception}
            '{e.headers}', '{url!r}', '{e.status:>30}', '{{', '}}', '{', '}', '{}', '%s', '%(url)s', '%r%d', '{e.traceback}',
            '${url}', '{e._headers}']
 
+HISTORIES = ['on>off', 'on>routes>off', 'on>served>off', 'off>on>off']    # see the module docstring
+PREV_PAYLOAD = '"><' + M2 + 'prev>&' + M2 + ';{e.status}' + M2
+
 BOUND = ('error kinds %s x rendering (Accept in %s) x position of the request text in {path, query string, Host, '
          'X-Forwarded-Host, X-Forwarded-Proto, all five at once} x %d markup payloads (tags, attribute break-outs, '
          'entities, comments, CDATA, template-closing tags, control and non-ASCII characters, backslash escapes) and %d '
@@ -71,10 +86,16 @@ BOUND = ('error kinds %s x rendering (Accept in %s) x position of the request te
          'Added: handler kinds whose exception text repeats the request data (%s) x catchall in {True, False} x Accept in '
          '{none, application/json} x every position x every payload (exhaustive); the other kinds with catchall=False x '
          'Accept in {none, application/json} x position in {path, all} x 6 markup + 2 format payloads; 400 seeded '
-         'random payloads over all kinds x catchall in {True, False}; debug=True is not generated (statement: debug off)'
-         % ('{' + ', '.join(KINDS) + '}', ACCEPTS, len(MARKUP), len(FORMATS), ', '.join(ECHO_KINDS)))
-NONTRIVIAL_RULE = ('distinct (kind, accept, where, payload, previous, catchall); every case carries at least one '
+         'random payloads over all kinds x catchall in {True, False}; debug=True is not generated (statement: debug off). '
+         'Added: applications CONSTRUCTED with debug=True and set to debug=False by app.setup(full config) before the judged request '
+         '(histories %s): history on>off x the exception-echoing kinds x Accept in {none, application/json} x every position x '
+         'every payload (exhaustive); the other three histories x those kinds x Accept x position in {path, all} x 8 markup + 4 '
+         'format payloads; history on>off x every other kind x Accept x position in {path, all} x 8 payloads; on>off x echoing kinds '
+         'x catchall=False x 8 markup payloads; 300 (thorough 6000) seeded random payloads over all kinds x all histories x catchall'
+         % ('{' + ', '.join(KINDS) + '}', ACCEPTS, len(MARKUP), len(FORMATS), ', '.join(ECHO_KINDS), HISTORIES))
+NONTRIVIAL_RULE = ('distinct (kind, accept, where, payload, previous, catchall, history); every case carries at least one '
                    'significant character')
+
 
 
 def exhaustive(tier):
@@ -123,6 +144,32 @@ def gen_cases(tier, seed):
         p = ''.join(rnd2.choice(alphabet) for _ in range(rnd2.randrange(2, 14)))
         yield dict(kind=rnd2.choice(ALL_KINDS), accept=rnd2.choice(ACCEPTS), where=rnd2.choice(WHERES), payload=p, prev=None,
                    catchall=rnd2.choice([0, 1]))
+    # applications constructed with debug on and reconfigured to debug off before the request
+    for kind in ECHO_KINDS:
+        for accept in ('', 'application/json'):
+            for where in WHERES:
+                for p in markup + formats:
+                    yield dict(kind=kind, accept=accept, where=where, payload=p, prev=None, history='on>off')
+    for history in HISTORIES[1:]:
+        for kind in ECHO_KINDS:
+            for accept in ('', 'application/json'):
+                for where in ('path', 'all'):
+                    for p in markup[:8] + formats[:4]:
+                        yield dict(kind=kind, accept=accept, where=where, payload=p, prev=None, history=history)
+    for kind in KINDS:
+        for accept in ('', 'application/json'):
+            for where in ('path', 'all'):
+                for p in markup[:4] + [markup[9], markup[12]] + [formats[0], formats[2]]:
+                    yield dict(kind=kind, accept=accept, where=where, payload=p, prev=None, history='on>off')
+    for kind in ECHO_KINDS:
+        for accept in ('', 'application/json'):
+            for p in markup[:8]:
+                yield dict(kind=kind, accept=accept, where='all', payload=p, prev=None, history='on>off', catchall=0)
+    rnd3 = random.Random(seed * 101 + 202020)
+    for _ in range(300 if not thorough else 6000):
+        p = ''.join(rnd3.choice(alphabet) for _ in range(rnd3.randrange(2, 14)))
+        yield dict(kind=rnd3.choice(ALL_KINDS), accept=rnd3.choice(ACCEPTS), where=rnd3.choice(WHERES), payload=p, prev=None,
+                   catchall=rnd3.choice([0, 1]), history=rnd3.choice(HISTORIES))
     if thorough:
         for kind, accept, where, p in prevs[:200]:
             for pk in ECHO_KINDS:
@@ -142,12 +189,30 @@ def _request_text(environ):
         environ.get('HTTP_X_FORWARDED_HOST'), environ.get('HTTP_X_FORWARDED_PROTO'))
 
 
-def make_app(kind, catchall=True):
-    import ombott
+def final_config(catchall=True):
     config = {'max_body_size': 64, 'max_memfile_size': 32, 'debug': False}
     if not catchall:
         config['catchall'] = False      # absent = the default (True)
-    app = ombott.Ombott(config)
+    return config
+
+
+def make_app(kind, catchall=True, history=None):
+    """history None: constructed with the final (debug off) configuration.  Otherwise see the module docstring; for
+    'on>served>off' the caller serves the debug-mode request and then calls app.setup(final_config(catchall))."""
+    import ombott
+    config = final_config(catchall)
+    if history is None:
+        app = ombott.Ombott(config)
+    elif history == 'off>on>off':
+        app = ombott.Ombott(config)
+        app.setup(dict(config, debug=True))
+        app.setup(final_config(catchall))
+    elif history in ('on>off', 'on>routes>off', 'on>served>off'):
+        app = ombott.Ombott(dict(config, debug=True))
+        if history == 'on>off':
+            app.setup(final_config(catchall))
+    else:
+        raise ValueError(history)
 
     @app.route('/int/{rest:path()}')
     def crash_int(rest):
@@ -193,6 +258,9 @@ def make_app(kind, catchall=True):
     def bad_header(rest):
         app.response.headers['X-Unsendable'] = 'a\ud800'
         return 'ok'
+
+    if history == 'on>routes>off':
+        app.setup(final_config(catchall))
 
     if kind == 'crit404handler':
         @app.error(404)
@@ -393,8 +461,13 @@ def run_case(case):
     if not refs:
         return None                     # this tree makes no error page for harmless requests: nothing to compare
     catchall = bool(case.get('catchall', 1))
-    app = make_app(kind, catchall)
+    history = case.get('history')
+    app = make_app(kind, catchall, history)
     payloads = [(payload, M)]
+    if history == 'on>served>off':
+        serve(app, make_request(kind, accept, 'all', PREV_PAYLOAD))     # debug mode: nothing is claimed for this page
+        app.setup(final_config(catchall))
+        payloads.append((PREV_PAYLOAD, M2))
     prev = case.get('prev')
     if prev:
         # the earlier request is of its own kind but served by this application
@@ -409,7 +482,10 @@ def run_case(case):
         # JSON was asked for and the last-resort HTML page came back. That page is accepted as it is only if the
         # request ends there whatever the rendering (failing error handler, unsendable header) - not if asking
         # for JSON is what broke the error response.
-        twin = serve(make_app(kind, catchall), make_request(kind, '', where, payload))
+        twin_app = make_app(kind, catchall, history)
+        if history == 'on>served>off':
+            twin_app.setup(final_config(catchall))
+        twin = serve(twin_app, make_request(kind, '', where, payload))
         if twin.exc_info_calls == 0 and twin.exc is None:
             return fail('J1.valid_json', status=res.status, content_type=res.header('Content-Type'),
                         error='JSON requested: last-resort HTML page; the HTML rendering of the same request works',
